@@ -101,6 +101,7 @@ type c05Case struct {
 	Family string
 	Src    string
 	Yaml   bool
+	Focus  string // rtcons: the request part whose member carries the full catalogue
 	Fields []c05Field
 	Out    struct{ Err, Ok, Any bool }
 }
@@ -182,7 +183,7 @@ func decField(m kit.M) c05Field {
 }
 
 func decCase(m kit.M) c05Case {
-	c := c05Case{Family: kit.Str(m["family"]), Src: kit.Str(m["src"]), Yaml: kit.Bool(m["yaml"])}
+	c := c05Case{Family: kit.Str(m["family"]), Src: kit.Str(m["src"]), Yaml: kit.Bool(m["yaml"]), Focus: kit.Str(m["focus"])}
 	for _, f := range kit.List(m["fields"]) {
 		c.Fields = append(c.Fields, decField(f.(kit.M)))
 	}
@@ -1294,6 +1295,10 @@ func (rn *c05Runner) runText(c *c05Case) (bads []*c05Bad, results []c05Result, n
 // setFromLiteral fills a request field with the value its literal names (reference conversion).
 func setFromLiteral(fv reflect.Value, f c05Field) error {
 	text := f.Doc.Text
+	if fv.Kind() == reflect.Ptr { // a pointer member holds the address of the value
+		fv.Set(reflect.New(fv.Type().Elem()))
+		fv = fv.Elem()
+	}
 	switch fv.Kind() {
 	case reflect.Int, reflect.Int8, reflect.Int16, reflect.Int32, reflect.Int64:
 		n := refInt(text)
@@ -1364,12 +1369,22 @@ func (rn *c05Runner) runRoundTrip(c *c05Case) (bads []*c05Bad, results []c05Resu
 	n = 1
 	input := render(req.Elem())
 	where := fmt.Sprintf("httpc.Do(POST /rt/:%s, %s) of %s", pathName, input, describe(c.Fields))
+	fam := "rt." + c.Family + "."
+	// mustFail: some member's value is outside its own options= / range= (and not an unset optional)
+	mustFail := !c.Out.Ok && !c.Out.Any
+	why := "must-fail"
+	if f := firstMustErr(c.Fields); f != nil {
+		why = f.Out.Why
+	}
 	switch {
 	case pan != "":
 		rn.rep.Count("call.roundtrip.panic", 1)
 		return []*c05Bad{{"C05:panic:" + panicClass(pan) + ":roundtrip:client", where + " panicked: " + pan}}, nil, n
 	case doErr != nil:
 		rn.rep.Count("call.roundtrip.clienterr", 1)
+		if mustFail {
+			rn.rep.Count(fam+"outside.client-refused", 1)
+		}
 		if c.Out.Err {
 			return nil, nil, n
 		}
@@ -1384,10 +1399,28 @@ func (rn *c05Runner) runRoundTrip(c *c05Case) (bads []*c05Bad, results []c05Resu
 	case "panic":
 		return []*c05Bad{{"C05:panic:" + panicClass(r.Panic) + ":roundtrip:server", where + ": httpx.Parse panicked: " + r.Panic}}, results, n
 	case "err":
+		if mustFail {
+			rn.rep.Count(fam+"outside.server-refused", 1)
+		}
 		if c.Out.Err {
+			if !mustFail {
+				rn.rep.Count(fam+"open.server-refused", 1)
+			}
 			return nil, results, n
 		}
 		return []*c05Bad{{"C05:roundtrip:rejected", where + ": httpx.Parse failed with " + strconv.Quote(r.Err.Error())}}, results, n
+	}
+	if mustFail {
+		// neither side refused a value outside the declared constraint: equal or not, the server holds
+		// a struct the unmarshalling clause forbids
+		detail := ""
+		if f := firstMustErr(c.Fields); f != nil {
+			if fv, ok := valueAt(r.Val.Elem(), c.Fields, f); ok {
+				detail = fmt.Sprintf("; %s member %s (%s%s) arrived as %s", f.Part, f.Name.Exact, ptrMark(*f), kindName(*f), show(fv))
+			}
+		}
+		return []*c05Bad{{"C05:roundtrip:accepted:" + why, fmt.Sprintf("%s: neither the client helper nor httpx.Parse returned an error, the specification requires one (%s)%s; parsed back %s",
+			where, why, detail, render(r.Val.Elem()))}}, results, n
 	}
 	if !reflect.DeepEqual(r.Val.Elem().Interface(), req.Elem().Interface()) {
 		return []*c05Bad{{"C05:roundtrip:not-equal", fmt.Sprintf("%s: parsed back %s", where, render(r.Val.Elem()))}}, results, n
@@ -1395,6 +1428,15 @@ func (rn *c05Runner) runRoundTrip(c *c05Case) (bads []*c05Bad, results []c05Resu
 	// the equal struct is also what the specification names, field by field
 	if bad := matchFields(r.Val.Elem(), c.Fields); bad != "" {
 		return []*c05Bad{{"C05:roundtrip:not-equal", where + ": " + bad}}, results, n
+	}
+	rn.rep.Count(fam+"equal", 1)
+	for _, f := range c.Fields { // vacuity guards of the constraint family: equal structs that sit on a bound
+		if f.Opts.Range.On && ((f.Opts.Range.Li && f.Doc.Text == f.Opts.Range.Lo) || (f.Opts.Range.Ri && f.Doc.Text == f.Opts.Range.Hi)) {
+			rn.rep.Count(fam+"equal.on-included-bound."+f.Part, 1)
+		}
+		if len(f.Opts.Options) > 0 {
+			rn.rep.Count(fam+"equal.in-options."+f.Part, 1)
+		}
 	}
 	return nil, results, n
 }
@@ -1517,7 +1559,7 @@ func (rn *c05Runner) runCase(kc kit.Case) kit.Verdict {
 	var results []c05Result
 	var n int
 	switch {
-	case c.Family == "roundtrip" || c.Family == "rtopt":
+	case c.Family == "roundtrip" || c.Family == "rtopt" || c.Family == "rtcons":
 		bads, results, n = rn.runRoundTrip(&c)
 	case c.Family == "twice":
 		bads, results, n = rn.runTwice(&c)
@@ -1540,7 +1582,7 @@ func (rn *c05Runner) runCase(kc kit.Case) kit.Verdict {
 	s := sig(results)
 	if rn.passNo == 0 {
 		rn.first[kc.Index] = s
-	} else if prev, ok := rn.first[kc.Index]; ok && prev != s && c.Family != "roundtrip" && c.Family != "rtopt" {
+	} else if prev, ok := rn.first[kc.Index]; ok && prev != s && c.Family != "roundtrip" && c.Family != "rtopt" && c.Family != "rtcons" {
 		bads = append(bads, &c05Bad{"C05:order-dependent", fmt.Sprintf("into %s: first pass %s, second pass (other order) %s", describe(c.Fields), prev, s)})
 	}
 	if len(bads) > 0 {
@@ -1619,8 +1661,11 @@ func TestVerifC05(t *testing.T) {
 
 	rng := rand.New(rand.NewSource(kit.Seed()*7919 + int64(shard)))
 	passes := 2
-	if len(mine) > 0 && (kit.Str(mine[0].Steps[0]["family"]) == "roundtrip" || kit.Str(mine[0].Steps[0]["family"]) == "rtopt") {
-		passes = 1
+	if len(mine) > 0 {
+		switch kit.Str(mine[0].Steps[0]["family"]) {
+		case "roundtrip", "rtopt", "rtcons":
+			passes = 1
+		}
 	}
 	bad := map[int]bool{}
 	for pass := 0; pass < passes; pass++ {
